@@ -51,6 +51,8 @@ def _forked(mod, tier, base, idxs, nw):
         if pid == 0:
             os.close(r)
             try:
+                from . import util as _util
+                _util.enter_private_scratch()
                 d = digests(mod, tier, base, idxs[w::nw])
                 os.write(wr, json.dumps(d).encode())
             finally:
@@ -75,7 +77,10 @@ def determinism(args):
     n = args.runs or 60
     bad = 0
     tier = args.tier
+    total_bad = 0
     for mod in _mods():
+        total_bad += bad
+        bad = 0
         idxs = list(range(n))
         a = digests(mod, tier, args.seed, idxs)
         b = digests(mod, tier, args.seed, list(reversed(idxs)))
@@ -108,7 +113,7 @@ def determinism(args):
                   f"(fresh interpreters disagree or failed)")
         print(f"determinism {mod.PROP_ID}: {n} seeds x 4 configurations + "
               f"fresh interpreter: {'ok' if not bad else 'FAILED'}")
-    if bad:
+    if bad + total_bad:
         print("HARNESS-ERROR determinism self-test failed")
         return 3
     return 0
